@@ -124,8 +124,10 @@ CHECKS = {
     text="Proof: argv_spec (same length, argv[0] never substituted, every later argument replaced iff it EQUALS a placeholder, "
          "stdin iff no %url), subst_spec, embedded_placeholder_untouched, link_verbatim, hook_total. Tie: the real "
          "ui.openExternally launches a recorder program found through PATH (also under names that equal placeholders); recorded "
-         "argv and stdin must equal Hook.hook_command.",
-    note="exec/os are the platform's. The key-to-hook path (o, p, b, number+Enter, media type defaults) is covered by the UI/item checks.",
+         "argv and stdin must equal Hook.hook_command; also sequences of 2..4 opens with different links and media types in one "
+         "session under one installed configuration (the configuration must not be consumed by an open).",
+    note="exec/os are the platform's. The key-to-hook path (o, p, b on real posts/actors/activities) is driven in C07's real-item batch, "
+         "where the link the hook program received is compared with the model after every key.",
     technique="Coq proof (list recursion over argv) + differential correspondence through real exec",
     design="5/C20"),
  "C02": dict(
@@ -209,9 +211,17 @@ CHECKS = {
          "safety (every state access and frame by the mutex owner, no self-lock, mutual exclusion) and progress (no deadlock while "
          "commands succeed) as ui_safety / ui_progress for ALL interleavings. Observation: stress runs of the real ui.State (one "
          "goroutine per key, resize poller, loaders with latency) with a TryLock probe in the output callback, an overlap detector and "
-         "a progress watchdog; thorough adds the Go race detector.",
-    note="Outside: Go's memory model/scheduler; the ownership protocol of page.frontier/children/basepoint; pub/splicer fan-outs (race "
-         "detector only). The translator (Go, syntactic, fails closed on anything unclassified) is part of the trusted base.",
+         "a progress watchdog; thorough adds the Go race detector to the stress. FAN-OUTS (second sentence of the property): "
+         "tools/xlate -fanout regenerates, from the CURRENT pub/*.go, splicer/*.go, client/*.go, the reads and writes every goroutine "
+         "of every fork-join fan-out makes to memory shared with its siblings (gen/FanOut.v; loop-started goroutines instantiated "
+         "for two distinct iterations, parent statements before Wait as one more access list); Coq re-decides fj_check and "
+         "instantiates fj_no_race (no two goroutines touch the same cell with a write among them) and fj_deterministic (EVERY "
+         "interleaving ends in the same memory with the same values read). Observation in every tier: posts with several authors, "
+         "recipients, attachments, collections, page chains, feeds and listings fetched from the simulator, built and harvested by "
+         "the real code in a -race build.",
+    note="Outside: Go's memory model/scheduler; the ownership protocol of page.frontier/children/basepoint; in the fan-out description "
+         "calls count as reads of receiver and arguments (callees synchronise what they share: lru cache, singleflight - observed by "
+         "the race run). The translator (Go, syntactic, fails closed on anything unclassified) is part of the trusted base.",
     technique="Go-AST-to-Coq translation re-run every check + reflective checker with soundness proof (trace semantics, all interleavings) + stress observation",
     design="5/C08"),
  "C09": dict(
